@@ -160,6 +160,19 @@ pub fn oracle(ctx: &mut Ctx) {
         if rng.chance(1, 4) {
             attached.push((*b"prVt", rng.bytes(5)));
         }
+        // chunks whose layout depends on the image format (right for the image as given): they are dropped when colour type
+        // or depth change and - for an indexed image - must not outlive a change of the palette they index into
+        if rng.chance(1, 3) {
+            let d = match ct { 3 => vec![rng.below(img.palette.len().max(1) as u64) as u8], 0 | 4 => vec![0, 1], _ => vec![0, 1, 0, 2, 0, 3] };
+            attached.push((*b"bKGD", d));
+        }
+        if ct == 3 && rng.chance(1, 3) {
+            attached.push((*b"hIST", (0..img.palette.len()).flat_map(|k| [0u8, k as u8]).collect()));
+        }
+        if rng.chance(1, 4) {
+            let n = if ct == 3 { 3 } else { channels(ct) };
+            attached.push((*b"sBIT", vec![if ct == 3 { 8 } else { depth.min(8) }; n]));
+        }
         for (n, d) in &attached {
             raw.add_png_chunk(*n, d.clone());
         }
@@ -223,7 +236,17 @@ pub fn oracle(ctx: &mut Ctx) {
             st.count("scaled");
         }
         // attached chunks subject to the strip policy (no reductions touch tEXt/pHYs/prVt)
+        // (bKGD / sBIT / hIST describe the image format they were written for: they go when colour type, depth or - for
+        // an indexed image - the palette changes, as C07 says, and stay otherwise)
+        let format_changed = dec.img.ct != ct || dec.img.depth != depth || dec.img.palette != img.palette;
         for (n, d) in &attached {
+            let format_bound = matches!(n, b"bKGD" | b"sBIT" | b"hIST");
+            if format_bound && format_changed {
+                if dec.chunks.iter().any(|c| &c.name == n) && spec_keeps(&opts.strip, n) {
+                    st.fail("raw-stale-chunk", format!("attached chunk {} outlived a change of the image format (ct {} d{} -> ct {} d{}, palette changed: {})", name_str(n), ct, depth, dec.img.ct, dec.img.depth, dec.img.palette != img.palette), replay.clone());
+                }
+                continue;
+            }
             let keep = spec_keeps(&opts.strip, n);
             let count = dec.chunks.iter().filter(|c| &c.name == n && &c.data == d).count();
             if keep && count != 1 {
